@@ -12,7 +12,7 @@ Inductive creq :=
 | QProp (p : preq)                            (* ActionSignBeaconProposal *)
 | QSigns (ip : string) (ds : list (N * bytes)). (* ActionSign, 1..n entries: (key, domain) *)
 
-Definition nk (k : N) : nat := N.to_nat k.
+Definition nkey (k : N) : nat := N.to_nat k.
 
 (* RunRules locks only when the list is non-empty and names no key twice (otherwise it returns first) *)
 Definition lockable (ks : list N) : bool :=
@@ -23,13 +23,13 @@ Definition reject (ks : list N) : list rres :=
 
 Definition ckeys (r : creq) : list key :=
   match r with
-  | QAtts rs => if lockable (map r_key rs) then map (fun x => nk (r_key x)) rs else []
-  | QProp p => [nk (p_key p)]
-  | QSigns _ ds => if lockable (map fst ds) then map (fun d => nk (fst d)) ds else []
+  | QAtts rs => if lockable (map r_key rs) then map (fun x => nkey (r_key x)) rs else []
+  | QProp p => [nkey (p_key p)]
+  | QSigns _ ds => if lockable (map fst ds) then map (fun d => nkey (fst d)) ds else []
   end.
 
 Definition rdv (reads : list (key * cval)) (k : N) : cval :=
-  match rd reads (nk k) with Some v => v | None => cnone end.
+  match rd reads (nkey k) with Some v => v | None => cnone end.
 
 (* the proposal rule on the value read *)
 Definition prop_checks (c : rcfg) (dom : bytes) (cur slot : Z) : rres * Z :=
@@ -45,11 +45,18 @@ Definition cdecide (c : rcfg) (r : creq) (reads : list (key * cval)) : list rres
       if lockable (map r_key rs) then
         let outs := map (fun x => att_checks c (r_dom x) (fst (rdv reads (r_key x))) (r_src x) (r_tgt x)) rs in
         (map fst outs,
-         map (fun xo => (nk (r_key (fst xo)), (snd (snd xo), snd (rdv reads (r_key (fst xo)))))) (combine rs outs))
+         map (fun xo => (nkey (r_key (fst xo)), (snd (snd xo), snd (rdv reads (r_key (fst xo)))))) (combine rs outs))
       else (reject (map r_key rs), [])
   | QProp p =>
       let v := rdv reads (p_key p) in
       let '(res, s') := prop_checks c (p_dom p) (snd v) (p_slot p) in
-      ([res], [(nk (p_key p), (fst v, s'))])
+      ([res], [(nkey (p_key p), (fst v, s'))])
   | QSigns ip ds => (ruler_signs c true ip ds, [])
   end.
+
+(* the lock protocol over these *)
+Definition cworld := world cval creq (list rres).
+Definition cfire (c : rcfg) := fire ckeys (cdecide c).
+Definition creach (c : rcfg) := reach ckeys (cdecide c).
+Definition crun_sched (c : rcfg) := run_sched ckeys (cdecide c).
+Definition cser (c : rcfg) := ser ckeys (cdecide c).
